@@ -328,7 +328,7 @@ Qed.
 Lemma tls13_accept (s r r' : St CS) hver body ty data :
   mode_ok P R MTls13 c -> aead_tight P -> sync R s r ->
   unprotect c P r (23, hver, body) = ROk (r', (ty, data)) ->
-  hver = (3, 3) /\ ty <> 0 /\ zlen data <= c_recv_limit c /\
+  hver = (3, 3) /\ (ty <> 0 /\ ty <> 20) /\ zlen data <= c_recv_limit c /\
   exists k nonce, 0 <= k /\ zlen data + 1 + k <= c_recv_limit c + 1 /\
     get_nonce c (be_bytes 8 (st_seq r)) = ROk nonce /\
     body = pr_seal P nonce (data ++ [ty] ++ zeros k) (aad13 23 (3, 3) (zlen body)) /\
@@ -341,7 +341,7 @@ Proof.
   destruct (zlen body >? c_recv_limit c + 2048); [discriminate|].
   destruct (c_tls13 c && (zlen body >? c_recv_limit c + 256)); [discriminate|].
   rewrite Ht13, Henc, Haead in Hacc. change (23 =? 20) with false in Hacc. change (23 =? 21) with false in Hacc.
-  change (23 =? 23) with true in Hacc. cbn [andb] in Hacc.
+  change (23 =? 23) with true in Hacc. cbn [andb] in Hacc. rewrite ?andb_false_r in Hacc. cbn [andb] in Hacc.
   apply rbind_ok_inv in Hacc. destruct Hacc as [[s1 d1] [Hdu Hacc]].
   unfold decrypt_and_unseal in Hdu.
   apply rbind_ok_inv in Hdu. destruct Hdu as [[seqb s2] [Hns Hdu]].
@@ -359,8 +359,10 @@ Proof.
   destruct (zlen inner >? c_recv_limit c + 1) eqn:El; [discriminate|].
   destruct (zlen d2 >? c_recv_limit c) eqn:El2; [discriminate|].
   injection Hacc as <- <- <-.
+  apply rbind_ok_inv in Hdp. destruct Hdp as [[t0 d0] [Hdp Hccs]].
+  destruct (t0 =? 20) eqn:E20; [discriminate|]. injection Hccs as -> ->. apply Z.eqb_neq in E20.
   apply de_pad_inv in Hdp. destruct Hdp as [Hty [k [Hk Hinner]]].
-  split; [reflexivity|]. split; [exact Hty|]. split; [lia|].
+  split; [reflexivity|]. split; [split; [exact Hty|exact E20]|]. split; [lia|].
   exists k, n0. split; [exact Hk|]. split.
   { rewrite Hinner in El. rewrite !zlen_app, zlen_zeros in El by lia. change (zlen [ty1]) with 1 in El. lia. }
   split; [exact Hgn|]. split; [rewrite <- Hinner; apply Htight; exact Eo|].
